@@ -70,6 +70,12 @@ const (
 	c16Shared = c16Key("shared")
 )
 
+// c16Uncomparable is a context type whose values cannot be compared with ==.
+type c16Uncomparable struct {
+	context.Context
+	tags []string
+}
+
 // c16Deadlined reports a deadline (enforced by whoever made it, far in the future) on top of a
 // cancellable context: everything but Deadline is the inner context's.
 type c16Deadlined struct {
@@ -501,6 +507,9 @@ func c16Conflated() {
 		cs[i] = in.ctx
 	}
 	r, cancel := bigbuff.ConflatedContext(cs...)
+	for i := range cs {
+		cs[i] = context.Background() // the argument slice is the caller's again once the call has returned
+	}
 	if r == nil || cancel == nil {
 		simrt.Failf("C16.conflated-nil", "ConflatedContext returned nil")
 		return
@@ -615,6 +624,15 @@ func c16Chain() {
 	live := []*c16In{a}
 	if b != a {
 		live = append(live, b)
+	}
+	if simrt.Chance(1, 8) {
+		// both contexts are values of one user-defined type that cannot be compared (a struct with a slice
+		// field): legal contexts, as long as nobody compares them
+		a.ctx = c16Uncomparable{a.ctx, []string{"a"}}
+		if b != a {
+			b.ctx = c16Uncomparable{b.ctx, []string{"b"}}
+		}
+		simrt.Probe("uncomparable_context_types")
 	}
 	nChains := simrt.DrawRange(1, 2)
 	slowF := make([]int, nChains)
